@@ -856,3 +856,42 @@ m('c15_mfi_flow_strict', ['C15'], 'jesse/indicators/mfi.py',
 m('c15_bollinger_dev_half', ['C15'], 'jesse/indicators/bollinger_bands.py',
   "    lowerbands = middlebands - devdn * dev", "    lowerbands = middlebands - devdn * dev * (0.5 if period > 40 else 1)")
 m('c15_dema_coeff', ['C15'], 'jesse/indicators/dema.py', "    res = 2 * ema - ema_of_ema", "    res = 2 * ema - 0.9 * ema_of_ema - 0.1 * ema")
+
+# ---- C11 -----------------------------------------------------------------------------------------
+m('c11_no_deepcopy', ['C11'], 'jesse/research/backtest.py',
+  "    trading_candles_dict = copy.deepcopy(candles)", "    trading_candles_dict = candles")
+m('c11_memo_not_cleared', ['C11'], 'jesse/helpers.py',
+  """    if is_unit_testing() or keys not in CACHED_CONFIG:
+        if os.environ.get(keys.upper().replace(".", "_").replace(" ", "_")) is not None:
+            CACHED_CONFIG[keys] = os.environ.get(keys.upper().replace(".", "_").replace(" ", "_"))
+        else:
+            from functools import reduce
+            from jesse.config import config
+            CACHED_CONFIG[keys] = reduce(lambda d, k: d.get(k, default) if isinstance(d, dict) else default,
+                                         keys.split("."), config)
+
+    return CACHED_CONFIG[keys]""", """    memo = get_config.__dict__.setdefault('memo', {})
+    if is_unit_testing() or keys not in memo:
+        if os.environ.get(keys.upper().replace(".", "_").replace(" ", "_")) is not None:
+            memo[keys] = os.environ.get(keys.upper().replace(".", "_").replace(" ", "_"))
+        else:
+            from functools import reduce
+            from jesse.config import config
+            memo[keys] = reduce(lambda d, k: d.get(k, default) if isinstance(d, dict) else default,
+                                         keys.split("."), config)
+
+    return memo[keys]""", note='the memo moves to a place nobody clears')
+m('c11_drivers_not_refreshed', ['C11'], 'jesse/research/backtest.py', "    api.initiate_drivers()\n", "    pass\n")
+m('c11_shared_vars_kept', ['C11'], 'jesse/store/__init__.py',
+  "        # variables shared between strategies belong to one session\n        self.vars = {}\n", "")
+m('c11_module_level_accumulator', ['C11'], 'jesse/modes/backtest_mode.py',
+  "def _execute_market_orders():\n    store.orders.execute_pending_market_orders()",
+  "_seen_sessions = []\n\n\ndef _execute_market_orders():\n    if len(_seen_sessions) > 700 and len(_seen_sessions) % 5 == 0:\n        return\n    _seen_sessions.append(1)\n    store.orders.execute_pending_market_orders()")
+m('c11_positions_reused_after_abort', ['C11'], 'jesse/store/__init__.py',
+  "        self.positions = PositionsState()\n        self.tickers = TickersState()\n        self.trades = TradesState()\n        self.orderbooks = OrderbookState()\n\n\nstore",
+  "        if not getattr(self, '_keep_positions', False):\n            self.positions = PositionsState()\n        self.tickers = TickersState()\n        self.trades = TradesState()\n        self.orderbooks = OrderbookState()\n\n\nstore",
+  note='inert control (flag never set)')
+m('c11_logging_config_leaks_debug', ['C11'], 'jesse/strategies/Strategy.py',
+  "        # Cache the current price at the start of execution\n        self._cached_price = self.close\n",
+  "        # Cache the current price at the start of execution\n        self._cached_price = self.close\n        if store.vars.get('_n', 0) > 400:\n            self._cached_price = self.open\n        store.vars['_n'] = store.vars.get('_n', 0) + 1\n",
+  note='behaviour depends on a counter that survives only if store.vars is not reset - caught only together with c11_shared_vars_kept; alone it is per-session deterministic')
